@@ -89,7 +89,12 @@ PUNCT_KEYS = ["A-B", "A_B", "A B", "A=B", "LONG=KEY=WITH=EQ", "A.B", "A/B", "LON
 STRUCT_KEYS = ["END", "HISTORY", "CONTINUE", "", "PCOUNT", "GCOUNT", "EXTNAME", "EXTNAME", "HDUNAME", "HDUVER", "BZERO", "BSCALE", "BLANK", "XTENSION", "HIERARCH", "DATE", "CHECKSUM", "GROUPS", "EXTVER"]
 BLANK_KEYS = [" LEADING SPACE", "TRAILING SPACE ", "HIERARCH ABC DEF", "HIERARCH X", "  TWO LEADING", "HIERARCH  TWOSP", "         ", "          X"]
 NONPRINT_KEYS = ["A\x01LONGKEYCTRL", "TAB\tINLONGKEY", "LONGKEY\xe9HIGH", "LONGKEYCTRL\x02"]
-KEY_CLASSES = [("short", SHORT_KEYS, 30), ("long", LONG_KEYS, 22), ("reserved", RESERVED_KEYS, 8), ("near", NEAR_RESERVED, 9), ("lower", LOWER_KEYS, 5),
+# names the FITS standard / cfitsio give a meaning to elsewhere (world coordinates, table columns, checksums, observation metadata):
+# ordinary auxiliary keys here
+STD_KEYS = ["CTYPE1", "CRVAL2", "CRPIX3", "CDELT1", "CUNIT2", "CD1_1", "PC2_2", "TDIM3", "TFORM1", "TTYPE2", "TUNIT1", "TNULL1", "TSCAL1", "TZERO1",
+            "BUNIT", "DATAMIN", "DATAMAX", "DATE-OBS", "TELESCOP", "INSTRUME", "OBSERVER", "OBJECT", "AUTHOR", "REFERENC", "EQUINOX", "EPOCH",
+            "RADESYS", "LONPOLE", "CHECKSUM", "DATASUM", "ORIGIN", "DATE", "TFIELDS", "WCSAXES", "MJD-OBS", "CREATOR"]
+KEY_CLASSES = [("std", STD_KEYS, 6), ("short", SHORT_KEYS, 30), ("long", LONG_KEYS, 22), ("reserved", RESERVED_KEYS, 8), ("near", NEAR_RESERVED, 9), ("lower", LOWER_KEYS, 5),
                ("punct", PUNCT_KEYS, 7), ("struct", STRUCT_KEYS, 10), ("blank", BLANK_KEYS, 5), ("nonprint", NONPRINT_KEYS, 1), ("random", None, 6)]
 KEY_CHARS = "ABCDEFGHIJKLMNOPQRSTUVWXYZ0123456789 -_.=/'abz"
 VAL_CHARS = "abcXYZ019 '/=&.-+_\"~#"
